@@ -355,6 +355,12 @@ def harness(ctx, cfg):
     kind = cfg["action"]
     is_user = kind.startswith("User")
     k = z3.Int("k_fresh")
+    disabled = list(cfg.get("disable", []))
+    if disabled:
+        # C10: a disabled feature (stored values arbitrary) is no longer changed by edits
+        p.tr.disable_features(disabled)
+        ctx.input("disabled", disabled)
+    raw_n0 = [dict(d) for d in p.g.nattr]
     S0 = Snap(p, k)
     act, exc, named, args = perform(ctx, p, cfg)
     ctx.input("action", kind)
@@ -392,6 +398,17 @@ def harness(ctx, cfg):
     ctx.env.update(exc=None, acts=sub)
     L = p.with_lineage
     emitted1 = list(p.emitted)
+    if disabled and want("C10"):
+        cs = []
+        for i in range(p.g.N):
+            for key in disabled:
+                cs.append(Implies(And(S0.sh.al[i], S1.sh.al[i]),
+                                  same_value(raw_n0[i].get(key), p.g.nattr[i].get(key))))
+        if LID in disabled:
+            cs += [S0.mem_l[i] == S1.mem_l[i] for i in range(p.g.N)] + [S0.maxl == S1.maxl]
+        if TID in disabled:
+            cs += [S0.mem_t[i] == S1.mem_t[i] for i in range(p.g.N)] + [S0.maxt == S1.maxt]
+        ctx.oblige("C10.disabled_feature_untouched_by_edit", And(cs), "C10")
 
     if is_user:
         if want("C03"):
